@@ -4,7 +4,7 @@ package main
 // A Ufs on a scratch tree, one client session per case: fids are walked, opened (files and
 // directories), created (files, directories, symbolic links, hard links - also hard links that
 // fail), read, clunked, removed, in both dialects; then the session ends (orderly unmount, or the
-// transport is cut, sometimes with a request outstanding). When the connection is gone
+// transport is cut, sometimes with a request outstanding, or the client sends a frame that cannot be decoded). When the connection is gone
 //   - every fid object the implementation was shown must have been reported destroyed exactly once,
 //   - ConnClosed exactly once,
 //   - no descriptor of the process may still point into the exported tree (/proc/self/fd).
@@ -242,8 +242,18 @@ func modeUfsFds(tier string, args []string) {
 			}
 		}
 		// the end of the session
-		how := sess % 3
+		how := sess % 4
 		switch how {
+		case 3:
+			// a complete frame the server cannot decode (a Twalk that ends inside its newfid field; an unknown
+			// message type): the server drops the connection, and that is a disconnect like any other
+			bad := []byte{13, 0, 0, 0, go9p.Twalk, 9, 0, 1, 0, 0, 0, 7, 0}
+			if sess%8 == 7 {
+				bad = []byte{9, 0, 0, 0, 250, 9, 0, 1, 2}
+			}
+			_, _ = c1.Write(bad)
+			time.Sleep(2 * time.Millisecond)
+			_ = c1.Close()
 		case 0:
 			clnt.Unmount()
 		case 1:
